@@ -322,3 +322,83 @@ def _true_implies_call(crate, body, short_name):
         if not any(a[0] == "call:" + short_name and v is True for a, v in c.items()):
             return False
     return seen_true
+
+
+def merge_alignment(ck, w, rid_a, rid_b):
+    """TABLE rule for MergeTrees::next: the two streams are aligned by Apath::cmp(a, b) and each ordering
+    outcome consumes / emits the right side(s). Shared by C18 (diff) and C14 (pairing a source entry with its
+    basis entry is the precondition of reusing it)."""
+    lib = w.lib
+    # ---- 3. TABLE MergeTrees::next ------------------------------------------------------------------------------
+    mn = w.body("merge::MergeTrees::next")
+    o = ck.ob(rid_a, "MergeTrees::next compares a.apath() with b.apath() (in that order) by Apath::cmp")
+    cm = [e for e in mn.events if e.bb in mn.live and e.name == "<apath::Apath as std::cmp::Ord>::cmp"]
+    good = len(cm) == 1
+    if good:
+        a0 = flow.origins_x(lib, mn, cm[0].args[0])
+        a1 = flow.origins_x(lib, mn, cm[0].args[1])
+        f0 = any("next_a" in (x[2] if x[0] in ("param", "upvar") else ()) for x in a0) or any("IndexEntry" in c for c in flow.origin_calls(a0))
+        f1 = any("next_b" in (x[2] if x[0] in ("param", "upvar") else ()) for x in a1) or any("source::entry::Entry" in c for c in flow.origin_calls(a1))
+        if not (f0 and f1):
+            good = False
+            ck.fail(o, mn.name, "comparison operands changed", "cmp(%s, %s)" % (flow.origin_summary(a0), flow.origin_summary(a1)), cm[0].site())
+    else:
+        ck.fail(o, mn.name, "no unique Apath::cmp", "found %d comparisons" % len(cm))
+    if good:
+        ck.ok(o, sites=[cm[0].site()])
+    o = ck.ob(rid_b, "MergeTrees::next: Equal -> Both(take a, take b); Less -> Left(take a); Greater -> Right(take b); one-sided -> Left / Right")
+    if cm:
+        sw = None
+        for (sb, tested, arms, other) in flow.discriminant_switches(mn, flow.result_carriers(mn, cm[0].dest["l"])):
+            sw = (sb, arms, other)
+        problems = []
+        if sw is None:
+            problems.append("no switch on the comparison result")
+        else:
+            sb, arms, other = sw
+            want = {255: ("Left", {"next_a"}), 0: ("Both", {"next_a", "next_b"}), 1: ("Right", {"next_b"})}
+            for val, (variant, takes) in want.items():
+                tgt = arms.get(val)
+                if tgt is None:
+                    problems.append("no arm for ordering value %d" % val)
+                    continue
+                region = mn.reachable(tgt)
+                aggs = [(bb, s) for bb, j, s in rules.agg_sites(mn, "merge::MatchedEntries") if bb in region and mn.must_pass_edges({(sb, tgt)}, bb)]
+                vs = {s["rv"]["variant"] for bb, s in aggs}
+                if vs != {variant}:
+                    problems.append("ordering %s builds %s instead of %s" % ({255: "Less", 0: "Equal", 1: "Greater"}[val], sorted(vs), variant))
+                    continue
+                # which peeked entries are consumed
+                took = set()
+                for e in mn.events:
+                    if e.bb in region and e.name in ("std::option::Option::<T>::take", "std::mem::take", "std::mem::replace") and mn.must_pass_edges({(sb, tgt)}, e.bb):
+                        for x in flow.origins_x(lib, mn, e.args[0]):
+                            if x[0] in ("param", "upvar"):
+                                took |= {f for f in x[2] if f in ("next_a", "next_b")}
+                if took != takes:
+                    problems.append("ordering %s consumes %s instead of %s" % ({255: "Less", 0: "Equal", 1: "Greater"}[val], sorted(took), sorted(takes)))
+                for bb, s in aggs:
+                    ops = s["rv"]["ops"]
+                    srcs = []
+                    for op in ops:
+                        oo = flow.origins_x(lib, mn, op)
+                        srcs.append({f for x in oo if x[0] in ("param", "upvar") for f in x[2] if f in ("next_a", "next_b")})
+                    exp = {"Left": [{"next_a"}], "Right": [{"next_b"}], "Both": [{"next_a"}, {"next_b"}]}[variant]
+                    if srcs != exp:
+                        problems.append("%s built from %s" % (variant, [sorted(x) for x in srcs]))
+            # one-sided cases: the remaining constructions
+            others = [(bb, s) for bb, j, s in rules.agg_sites(mn, "merge::MatchedEntries") if not mn.must_pass_nodes({sb}, bb)]
+            for bb, s in others:
+                variant = s["rv"]["variant"]
+                oo = flow.origins_x(lib, mn, s["rv"]["ops"][0])
+                src = {f for x in oo if x[0] in ("param", "upvar") for f in x[2] if f in ("next_a", "next_b")}
+                if (variant, src) not in (("Left", frozenset({"next_a"})), ("Right", frozenset({"next_b"}))) and \
+                        not ((variant == "Left" and src == {"next_a"}) or (variant == "Right" and src == {"next_b"})):
+                    problems.append("one-sided case builds %s from %s" % (variant, sorted(src)))
+            if len(others) != 2:
+                problems.append("expected 2 one-sided constructions, found %d" % len(others))
+        if problems:
+            for m in problems:
+                ck.fail(o, mn.name, m, m)
+        else:
+            ck.ok(o, instances=5)
